@@ -13,7 +13,7 @@ from .model import World
 FLAVOURS = (("id", "id"), ("path", "id"), ("id", "path"), ("path", "path"))
 OP_KINDS = (("create", 5), ("write", 4), ("rename_file", 4), ("rename_dir", 2), ("delete", 3),
             ("rmtree", 1), ("mkdir", 3))
-BASE_OPS = (("mkdir", "/d"), ("mkdir", "/e"), ("mkdir", "/d/e"),
+BASE_OPS = (("mkdir", "/d"), ("mkdir", "/e"), ("mkdir", "/d/e"), ("mkdir", "/b"),
             ("create", "/a"), ("create", "/d/a"), ("create", "/d/e/b"), ("create", "/e/c"))
 
 
@@ -91,8 +91,80 @@ def emit_base(d, world, acts, base_side):
     world.settle()
 
 
+GADGET_SHAPES = ("create_create_same", "create_create_diff", "edit_edit", "edit_delete", "delete_delete",
+                 "rename_edit", "rename_rename", "create_rename_onto", "file_vs_folder", "mkdir_mkdir",
+                 "rmdir_create_inside", "dirmove_create_inside")
+
+
+def emit_gadget(d, world, acts, shapes=GADGET_SHAPES):
+    """Draw one *pure* conflict gadget: both ops hit settled, otherwise untouched objects; no S step between
+    them (event-intake steps allowed); every path involved is retired afterwards.  Returns the shape or None."""
+    from .model import NAMES, depth, MAX_DEPTH
+    t0 = world.side[0]
+    files = [f for f in t0.files() if world.settled_untouched(f)]
+    sdirs = [g for g in t0.dirs() if g and world.settled_untouched(g)]
+    empty_dirs = [g for g in sdirs if not t0.subtree(g) and not world.side[1].subtree(g)]
+    parents = [""] + [g for g in sdirs if depth(g) < MAX_DEPTH - 1]
+    news = [g + "/" + n for g in parents for n in NAMES if world.free_new_path(g + "/" + n)]
+    shapes = list(shapes)
+    while shapes:
+        shape = d.choice(shapes)
+        shapes.remove(shape)
+        a = d.int(0, 1)     # side of the first op
+        b = 1 - a
+        ops = None
+        if shape == "create_create_same" and news:
+            p = d.choice(news); c = world.new_content()
+            ops = [[a, "create", p, c], [b, "create", p, c]]
+        elif shape == "create_create_diff" and news:
+            p = d.choice(news)
+            ops = [[a, "create", p, world.new_content()], [b, "create", p, world.new_content()]]
+        elif shape == "edit_edit" and files:
+            f = d.choice(files)
+            ops = [[a, "write", f, world.new_content()], [b, "write", f, world.new_content()]]
+        elif shape == "edit_delete" and files:
+            f = d.choice(files)
+            ops = [[a, "write", f, world.new_content()], [b, "delete", f]]
+        elif shape == "delete_delete" and files:
+            f = d.choice(files)
+            ops = [[a, "delete", f], [b, "delete", f]]
+        elif shape == "rename_edit" and files and news:
+            f = d.choice(files); n = d.choice(news)
+            ops = [[a, "rename", f, n], [b, "write", f, world.new_content()]]
+        elif shape == "rename_rename" and files and len(news) >= 2:
+            f = d.choice(files); n1 = d.choice(news); n2 = d.choice([x for x in news if x != n1])
+            ops = [[a, "rename", f, n1], [b, "rename", f, n2]]
+        elif shape == "create_rename_onto" and files and news:
+            f = d.choice(files); p = d.choice(news)
+            ops = [[a, "create", p, world.new_content()], [b, "rename", f, p]]
+        elif shape == "file_vs_folder" and news:
+            p = d.choice(news)
+            ops = [[a, "create", p, world.new_content()], [b, "mkdir", p]]
+        elif shape == "mkdir_mkdir" and news:
+            p = d.choice(news)
+            ops = [[a, "mkdir", p], [b, "mkdir", p]]
+        elif shape == "rmdir_create_inside" and empty_dirs:
+            g = d.choice(empty_dirs)
+            ops = [[a, "delete", g], [b, "create", g + "/" + d.choice(NAMES), world.new_content()]]
+        elif shape == "dirmove_create_inside" and empty_dirs and news:
+            g = d.choice(empty_dirs)
+            cand = [n for n in news if not n.startswith(g + "/")]
+            if cand:
+                ops = [[a, "rename", g, d.choice(cand)], [b, "create", g + "/" + d.choice(NAMES), world.new_content()]]
+        if ops is None:
+            continue
+        if d.bool():
+            ops.reverse()
+        mid = [d.choice(("EL", "ER")) for _ in range(d.int(0, 2))]
+        for (sd, *op) in ops:
+            world.apply_gadget_op(sd, *op)
+        acts.append(["gadget", {"shape": shape, "ops": ops, "mid": mid}])
+        return shape
+    return None
+
+
 def gen_history(d, cfg, *, sides=(0, 1), n_ops=(3, 8), hazards=None, with_base=None, sizes=False,
-                w_op=5, w_step=4, w_settle=1, kinds=OP_KINDS):
+                w_op=5, w_step=4, w_settle=1, kinds=OP_KINDS, w_gadget=0, shapes=GADGET_SHAPES):
     """Envelope history: hazard-free user ops on `sides` interleaved arbitrarily with engine steps."""
     world = World(path_style=(cfg["L"] == "path", cfg["R"] == "path"), hazards=hazards)
     acts = []
@@ -105,8 +177,11 @@ def gen_history(d, cfg, *, sides=(0, 1), n_ops=(3, 8), hazards=None, with_base=N
     guard = 0
     while done < n and guard < 10 * n + 20:
         guard += 1
-        k = d.weighted((("op", w_op), ("step", w_step), ("settle", w_settle)))
-        if k == "op":
+        k = d.weighted([x for x in (("op", w_op), ("step", w_step), ("settle", w_settle), ("gadget", w_gadget)) if x[1]])
+        if k == "gadget":
+            if emit_gadget(d, world, acts, shapes) is not None:
+                done += 1
+        elif k == "op":
             if emit_user_op(d, world, acts, d.choice(sides), kinds=kinds, sizes=sizes) is not None:
                 done += 1
             else:
@@ -120,3 +195,43 @@ def gen_history(d, cfg, *, sides=(0, 1), n_ops=(3, 8), hazards=None, with_base=N
     acts.append(["settle"])
     world.settle()
     return acts, world
+
+
+def envelope_ok(trace, hazards=None, sides=(0, 1)):
+    """True iff every user op of the trace is model-valid and hazard-free (used to keep ddmin inside the
+    generated domain, so that a shrunk trace is still a member of the domain the check claims)."""
+    from .model import ModelInvalid
+    cfg = trace["cfg"]
+    world = World(path_style=(cfg.get("L") == "path", cfg.get("R") == "path"), hazards=hazards)
+    for a in trace["acts"]:
+        if a[0] == "u":
+            if a[1] not in sides:
+                return False
+            op = tuple(a[2:])
+            try:
+                world.side[a[1]].check(*op)
+            except ModelInvalid:
+                return False
+            if world.hazard(a[1], *op) is not None:
+                return False
+            world.apply(a[1], *op)
+            if not world.exp_valid:
+                return False
+        elif a[0] == "gadget":
+            g = a[1]
+            for (sd, *op) in g["ops"]:
+                if op[0] in ("write", "delete", "rename"):
+                    if not world.settled_untouched(op[1]) and op[1] not in world.retired:
+                        return False
+                try:
+                    world.side[sd].check(*op)
+                except ModelInvalid:
+                    return False
+            for (sd, *op) in g["ops"]:
+                try:
+                    world.apply_gadget_op(sd, *op)
+                except ModelInvalid:
+                    return False
+        elif a[0] == "settle":
+            world.settle()
+    return True
